@@ -608,7 +608,9 @@ func cmdCheck(args []string) int {
 	cfg2.gomaxprocs = 4
 	mism := 0
 	onDet := func(j *Job, r *EpisodeResult) {
-		if r.Digest != digests[j.ID] || classOf(r) != verdicts[j.ID] {
+		// a racy tree may report another of its racing pairs on re-execution
+		// (shadow-memory history): race classes count as equal, as for minimisation
+		if r.Digest != digests[j.ID] || !sameClass(classOf(r), verdicts[j.ID]) {
 			if mism < 5 {
 				fmt.Fprintf(os.Stderr, "NONDETERMINISM: seed %d digest %s/%s verdict %q/%q\n", j.Seed, digests[j.ID], r.Digest, verdicts[j.ID], classOf(r))
 				if t := raceTexts[j.ID]; t != "" {
